@@ -33,6 +33,7 @@ Line-protocol driver for the C13 models (calendar, interval calculators, query p
                                         groups sorted by family, rows sorted) | none
   rollup <src> <tgt> <srcFamilyTime> <slot> -> <targetFTime> <ratio> <baseSlot> <ts> <slot(ts)> | panic
   goc <c> | t1 t2 ... | i1 i2 ...   -> T <obj per writer> R <registered obj per writer> opened <n>
+  gdfz <zone> <c> qs qe | t1 t2 ..     -> the range lookup with time.Local = the zone (family starts, sorted) | none
   goce <c> | t1 .. | i1 e i2 .. | p1 ..  -> writers + Shard.EvictSegment() (`e`) in the schedule, families of
                                        p1.. on disk: T <obj|-> R <registered obj|-> E <error flags> opened <n>
                                        (writers Shard.GetOrCrateDataFamily(t1), (t2), .. on fresh segments; the
@@ -265,6 +266,18 @@ def step (st : Unit) (ws : List String) : Unit × String :=
             if r.isEmpty then "none" else Proto.joinInt r
           | none => "unknown-variant"
         | _, _, _, _ => "bad-op"
+      | _ => "bad-op"
+    | "gdfz" :: rest =>
+      match splitBar rest with
+      | [[z, c, qs, qe], ts] =>
+        match parseZone z, parseCalc c, qs.toInt?, qe.toInt?, ints ts with
+        | some z, some c, some qs, some qe, some ts =>
+          match lookupVariant with
+          | some .ownSegment =>
+            let r := (sortInts (getDataFamiliesZ z c ⟨qs, qe⟩ ts)).eraseDups
+            if r.isEmpty then "none" else Proto.joinInt r
+          | _ => "unknown-variant"
+        | _, _, _, _, _ => "bad-op"
       | _ => "bad-op"
     | "batch" :: c :: rest =>
       match parseCalc c, ints rest with
